@@ -235,10 +235,12 @@ fn separate_rules(text: &str) -> Result<Vec<String>, String> {
     let mut num_quotes  = 0;
 
     let chrs = str_to_chars!(text);
-    for ch in chrs {
+    for (i, ch) in chrs.iter().enumerate() {
+        let ch = *ch;
         rule_str.push(ch);
         if ch == '.' && round_depth == 0 &&
-            square_depth == 0 && num_quotes % 2 == 0 {
+            square_depth == 0 && num_quotes % 2 == 0 &&
+            !is_decimal_point(&chrs, i) {
             rules.push(rule_str);
             rule_str = "".to_string();
         }
@@ -258,6 +260,23 @@ fn separate_rules(text: &str) -> Result<Vec<String>, String> {
     return Ok(rules);
 
 } // separate_rules
+
+/// Checks whether the period at the given index is a decimal point.
+///
+/// A period between two digits, as in 1.5, belongs to a number.
+/// It does not end a rule.
+///
+/// # Arguments
+/// * characters
+/// * index of period
+/// # Return
+/// * true if the period is a decimal point
+fn is_decimal_point(chrs: &Vec<char>, index: usize) -> bool {
+    if index == 0 || index + 1 >= chrs.len() { return false; }
+    let before = chrs[index - 1];
+    let after  = chrs[index + 1];
+    return before >= '0' && before <= '9' && after >= '0' && after <= '9';
+} // is_decimal_point()
 
 /// Check that a line ends with a valid character.
 ///
